@@ -62,6 +62,9 @@ CLAIMED = {
  'C17': ('property-based testing + bounded-exhaustive enumeration: regex ASTs rendered into each supported syntax vs an independent set-of-end-positions matcher over the AST (whole-path membership); subjects generated from the AST (members, prefixes, extensions); hook tier and end-to-end tier with positional -regextype',
          'Exploration: every AST of <= 4 (thorough 5) nodes x every subject of <= 4 symbols x four syntaxes x both case modes (alternatives also reversed), hundreds of thousands of random ASTs (sets, ranges, intervals, alternation with prefix-sharing branches, literal + and ?) in six syntax names, and tens of thousands of find runs on files named by the subjects with -regextype before / inside / after parentheses or given twice.',
          'The oracle decides membership of the entire path in the language of the AST; only constructs each syntax documents are rendered; nullable loop bodies and more than two nested unbounded repetitions are not generated at random (engine retry limit).', 'DESIGN.md §3 C17'),
+ 'C11': ('property-based testing + bounded-exhaustive enumeration: token sequences classified by a reference recogniser (non-sentences must be rejected before any effect: stdout, recorder log, file-system snapshot), a table of invalid operands embedded in expressions with -print/-delete/-exec, and random argument vectors with hostile operands over a tree of odd entries for panic freedom (in process with catch_unwind and through the binary)',
+         'Exploration: every sequence of <= 4 (thorough 5) units over a 15-unit alphabet, thousands of mutated valid expressions, ~200 invalid operands x 5 positions, 27 deterministic probes and tens of thousands of random vectors (multi-byte text after % and \\, huge numbers, stray brackets, unmapped owners, entries deleted earlier in the same expression); rejection happens with a diagnostic, non-zero status and no effect; no panic/abort.',
+         'One-directional (valid sentences are C01). Trusts the reference recogniser (DESIGN.md appendix A). A hang is only observable as the watchdog (exit 2). One known finding (the regex engine accepts an unterminated bracket expression).', 'DESIGN.md §3 C11'),
 }
 hooks_commits = subprocess.run(['git','-C','/repo','log','--format=%H %s'],capture_output=True,text=True).stdout.splitlines()
 hook_shas = [l.split()[0] for l in hooks_commits if 'verif hooks' in l]
